@@ -38,6 +38,24 @@ class OpenLog:
         builtins.open = self.real
 
 
+GENERATED = {}
+
+
+class KeyGen:
+    """while active, the next 32 random bytes the library asks for are the key chosen for a key file that does not exist yet"""
+    def __init__(self, kp):
+        self.key = GENERATED.get(kp)
+
+    def __enter__(self):
+        self.real = os.urandom
+        if self.key is not None:
+            os.urandom = lambda n: self.key if n == 32 else self.real(n)
+        return self
+
+    def __exit__(self, *a):
+        os.urandom = self.real
+
+
 def build(rng, tmp, secure_method):
     from cincoconfig import Schema, StringField, IntField, ListField, DictField, BytesField, SecureField, BoolField, Field
     s = Schema(dynamic=True)
@@ -61,7 +79,8 @@ def build(rng, tmp, secure_method):
     s.mode = StringField(default="production", env="CINCO_T_C19_MODE")
     s.site.port = IntField(default=5432, env="CINCO_T_C19_SITE_PORT")
     cfg = s()
-    cfg.site.accounts = [{"user": "u%d" % j, "password": "pw-%d-%d" % (j, rng.randint(0, 9999))} for j in range(rng.randint(1, 3))]
+    # (some configurations hold exactly one secret: the key file is then used once during a save)
+    cfg.site.accounts = [{"user": "u%d" % j, "password": "pw-%d-%d" % (j, rng.randint(0, 9999))} for j in range(rng.randint(1, 3) if rng.random() < 0.6 else 0)]
     cfg.mode = "debug"
     cfg.site.port = rng.randint(6000, 6999)
     kp = os.path.join(tmp, "key-%d" % rng.randint(0, 10 ** 9))
@@ -69,8 +88,11 @@ def build(rng, tmp, secure_method):
     if rng.random() < 0.3:
         # any 32 bytes are a key: also ones that begin or end with what text tools call whitespace
         key[rng.choice([0, -1])] = rng.choice(b" \t\n\r\x0b\x0c")
-    with open(kp, "wb") as f:
-        f.write(bytes(key))
+    if rng.random() < 0.4:
+        GENERATED[kp] = bytes(key)          # no key file yet: the library creates it during the save (run() makes os.urandom hand out this key)
+    else:
+        with open(kp, "wb") as f:
+            f.write(bytes(key))
     cfg._key_filename = kp
     return s, cfg, kp
 
@@ -110,12 +132,13 @@ def run(ctx):
             Config.dumps = spy
             case = {"stream": "save-ok", "fmt": fmt, "method": method}
             try:
-                with OpenLog() as ol:
+                with OpenLog() as ol, KeyGen(kp):
                     cfg.save(dest, fmt)
             except Exception as e:  # noqa
+                # (a save may fail; what the property asks of a failed save is that nothing is left behind — here: no new file)
                 res.case(None, kind="ok:raised")
-                res.violate("C19:plain-save-raised", "saving a valid configuration with a usable key file raised %s" % type(e).__name__,
-                            dict(case, error=str(e)[:200]))
+                if os.path.exists(dest):
+                    res.violate("C19:failed-save-left-a-file", "a save that raised %s left a destination file behind" % type(e).__name__, dict(case, error=str(e)[:200]))
                 continue
             finally:
                 Config.dumps = real_dumps
